@@ -118,7 +118,9 @@ def gen_cases(rng, tables, tier):
     L = {"id": "wired-tenants", "wired": True, "proxy": portcfg(mtv(vc(hmac="hmacA"))),
          "upstream": portcfg(mtv(vc(hmac="hmacA"), [{"id": "t1", "cfg": vc(hmac="hmacB")}, {"id": "t2", "cfg": vc(ecdsa="ecA256")}])),
          "admin": portcfg(None), "steps": []}
-    for key, alg in (("hmacA", "HS256"), ("hmacB", "HS256"), ("ecA256", "ES256"), ("hmacC", "HS512")):
+    # hmacEmpty: a forged HS* token signed with the zero-length secret. Config.Load turns "no HMAC secret" into an
+    # empty non-nil key; tenant t2 (ECDSA only) must still refuse the HMAC family
+    for key, alg in (("hmacA", "HS256"), ("hmacB", "HS256"), ("ecA256", "ES256"), ("hmacC", "HS512"), ("hmacEmpty", "HS256")):
         for ten in ("", "t1", "t2", "tx"):
             for claims in (None, ["e"], ["f"]):
                 L["steps"].append(dict(step("upstream", "/piko/v1/upstream/e", tenant=ten, auth=hdr(tok(alg=alg, key=key, endpoints=claims))), label="wired:tenant:%s:%s" % (ten or "-", key)))
